@@ -188,6 +188,66 @@ Fixpoint spawned (fuel : nat) (marker : bytes) (upload_var : bool) (c : cfg) (mo
          end) marker (r_effects r)
   end.
 
+(* ------------------------------------------------------ entry points *)
+
+(* A program reaches child() in one of two ways: by calling Start first thing
+   (EntryStart), or - the documented pattern for programs that cannot, which is
+   what cmd/go does - by calling MaybeChild first and Start later
+   (EntryMaybeChild).  MaybeChild(config) runs child(config) when the marker is
+   "1" and does nothing otherwise; the later Start then sees the same marker. *)
+Inductive entry := EntryStart | EntryMaybeChild.
+
+Definition maybe_child_run (marker : bytes) (upload_var : bool) (c : cfg) (tok : option Z) : option result :=
+  if beq marker lit_1 then Some (child_run c upload_var tok) else None.
+
+Definition program_run (e : entry) (marker : bytes) (upload_var : bool) (c : cfg) (mode : bytes)
+           (localdir_ok : bool) (period now : Z) (tok : option Z) : result :=
+  match e with
+  | EntryStart => start_run marker upload_var c mode localdir_ok period now tok
+  | EntryMaybeChild =>
+      match maybe_child_run marker upload_var c tok with
+      | Some r => r                 (* child never returns *)
+      | None => start_run marker upload_var c mode localdir_ok period now tok
+      end
+  end.
+
+(* the marker a program started after these effects finds in its environment *)
+Fixpoint env_marker_after (marker : bytes) (effs : list effect) : bytes :=
+  match effs with
+  | [] => marker
+  | ESetMarker2 :: rest => env_marker_after lit_2 rest
+  | _ :: rest => env_marker_after marker rest
+  end.
+
+(* the delegated go command follows the MaybeChild-then-Start pattern *)
+Definition go_entry : entry := EntryMaybeChild.
+
+(* `spawned` for a program with entry pattern e (its sidecar is the same
+   program re-executed, hence the same pattern) *)
+Fixpoint spawned_e (fuel : nat) (e : entry) (marker : bytes) (upload_var : bool) (c : cfg) (mode : bytes)
+         (localdir_ok : bool) (period now : Z) (tok : option Z) : list proc :=
+  match fuel with
+  | O => []
+  | S f =>
+      let r := program_run e marker upload_var c mode localdir_ok period now tok in
+      (fix walk (cur : bytes) (effs : list effect) : list proc :=
+         match effs with
+         | [] => []
+         | ESetMarker2 :: rest => walk lit_2 rest
+         | EExec _ up :: rest =>
+             let uv := up || upload_var in
+             mkProc KSidecar lit_1 uv
+               :: spawned_e f e lit_1 uv c mode localdir_ok period now (r_token r) ++ walk cur rest
+         | EUploadRun :: rest =>
+             (if beq mode lit_on
+              then mkProc KDelegated cur upload_var
+                     :: spawned_e f go_entry cur upload_var go_cfg mode true period now (r_token r)
+              else [])
+             ++ walk cur rest
+         | _ :: rest => walk cur rest
+         end) marker (r_effects r)
+  end.
+
 Definition is_sidecar (p : proc) : bool := match p_kind p with KSidecar => true | _ => false end.
 
 (* ------------------------------------------------------ oracles *)
